@@ -75,6 +75,7 @@ a(r'utils::basename\|assert:overflow:Add\|index 1', 'index is the payload of rfi
 a(r'utils::basename\|call:index:index', 'index < len and the matched pattern is a single ASCII byte, so index + 1 is a char boundary <= len')
 
 # ---------------------------------------------------------------- breakpad_symbols
+a(r'breakpad_symbols::lookup_leafname\|call:index:index\|leaf \(adt std::ops::RangeFrom::RangeFrom 2\)', 'dominated by the slice pattern [drive, b\':\', ..] on leaf.as_bytes() (len >= 2, byte 1 is `:`) and by drive.is_ascii_alphabetic(): bytes 0 and 1 are ASCII, so offset 2 is <= len and a char boundary of the str')
 a(r'http::HttpSymbolSupplier::new\|call:unwrap:unwrap', 'reqwest::ClientBuilder::build() with only a timeout set; fails only if the TLS backend cannot initialise. Constructor-time, not input-dependent (assumption)')
 a(r'parser::hex_str\|assert:overflow:Mul', 'size_of::<T>() for T in {u32, u64} times 2')
 a(r'parser::hex_str\|call:op_trait:shl', 'T is u32 or u64 (the two instantiations); shift amount is the literal 4')
